@@ -189,6 +189,8 @@ impl Sut for VClock<A> {
         t.call("vclock.is_empty", &[sx(self), self.is_empty().to_string()]);
     }
     fn extra(&self, other: &Self, a: &mut Args, t: &mut Out) {
+        // validate_merge accepts every pair of states (C17)
+        t.call("vclock.validate_merge", &[sx(self), sx(other), vm_sx(self.validate_merge(other))]);
         // pure-function probes on (self, other) and on random clocks, incl. ill-formed ones
         let zeros = a.below(4) == 0;
         let c1 = if a.below(2) == 0 { self.clone() } else { rand_clock(a, zeros) };
@@ -237,6 +239,17 @@ pub fn vclock_probes(c1: &VClock<A>, c2: &VClock<A>, c3: &VClock<A>, a: &mut Arg
     t.call("vclock.get", &[sx(c1), act.to_string(), c1.get(&act).to_string()]);
     let d2 = Dot::new(a.below(3), a.below(4));
     t.call("dot.cmp", &[sx(&d), sx(&d2), ord_sx(d.partial_cmp(&d2))]);
+    {
+        use std::hash::{Hash, Hasher};
+        let h = |x: &Dot<A>| {
+            let mut hs = std::collections::hash_map::DefaultHasher::new();
+            x.hash(&mut hs);
+            hs.finish()
+        };
+        let twin = Dot::new(d.actor, d.counter);
+        // Eq and Hash of dots: equal iff actor and counter agree; equal dots hash alike
+        t.call("dot.eq", &[sx(&d), sx(&d2), (d == d2).to_string(), (h(&d) == h(&twin) && d == twin).to_string()]);
+    }
     // dots with counter 0 are legal inputs (VClock::dot of an unseen actor yields one)
     let ds: Vec<Dot<A>> = (0..a.below(4)).map(|_| Dot::new(a.below(3), a.below(4))).collect();
     let fi: VClock<A> = ds.iter().cloned().collect();
@@ -271,6 +284,10 @@ impl Sut for GCounter<A> {
     type Op = Dot<A>;
     const NAME: &'static str = "gcounter";
     const HAS_MERGE: bool = true;
+    fn validate_only(&self, op: &Self::Op, t: &mut Out) {
+        // order-free type: validate_op accepts everything (C16)
+        t.call("gcounter.validate_op", &[sx(self), Self::op_sx(op), vm_sx(self.validate_op(op))]);
+    }
     fn new() -> Self {
         GCounter::new()
     }
@@ -315,6 +332,8 @@ impl Sut for GCounter<A> {
         t.call("gcounter.read", &[sx(self), self.read().to_string()]);
     }
     fn extra(&self, _o: &Self, a: &mut Args, t: &mut Out) {
+        // validate_merge accepts every pair of states (C17)
+        t.call("gcounter.validate_merge", &[sx(self), sx(_o), vm_sx(self.validate_merge(_o))]);
         let c = rand_clock(a, false);
         let mut r = self.clone();
         r.reset_remove(&c);
@@ -341,6 +360,10 @@ impl Sut for PNCounter<A> {
     type Op = pncounter::Op<A>;
     const NAME: &'static str = "pncounter";
     const HAS_MERGE: bool = true;
+    fn validate_only(&self, op: &Self::Op, t: &mut Out) {
+        // order-free type: validate_op accepts everything (C16)
+        t.call("pncounter.validate_op", &[sx(self), Self::op_sx(op), vm_sx(self.validate_op(op))]);
+    }
     fn new() -> Self {
         PNCounter::new()
     }
@@ -387,6 +410,8 @@ impl Sut for PNCounter<A> {
         t.call("pncounter.read", &[sx(self), self.read().to_string()]);
     }
     fn extra(&self, _o: &Self, a: &mut Args, t: &mut Out) {
+        // validate_merge accepts every pair of states (C17)
+        t.call("pncounter.validate_merge", &[sx(self), sx(_o), vm_sx(self.validate_merge(_o))]);
         let c = rand_clock(a, false);
         let mut r = self.clone();
         r.reset_remove(&c);
@@ -414,6 +439,10 @@ impl Sut for GSet<u64> {
     type Op = u64;
     const NAME: &'static str = "gset";
     const HAS_MERGE: bool = true;
+    fn validate_only(&self, op: &Self::Op, t: &mut Out) {
+        // order-free type: validate_op accepts everything (C16)
+        t.call("gset.validate_op", &[sx(self), Self::op_sx(op), vm_sx(self.validate_op(op))]);
+    }
     fn new() -> Self {
         GSet::new()
     }
@@ -457,6 +486,9 @@ impl Sut for GSet<u64> {
         t.call("gset.read", &[sx(self), sx(&bt)]);
     }
     fn extra(&self, _o: &Self, _a: &mut Args, t: &mut Out) {
+        // validate_merge accepts every pair of states (C17)
+        t.call("gset.validate_merge", &[sx(self), sx(_o), vm_sx(self.validate_merge(_o))]);
+        t.call("gset.default", &[sx(&<GSet<u64> as Default>::default())]);
         serde_rt("gset", self, t);
     }
     fn sx(&self) -> String {
@@ -479,6 +511,9 @@ macro_rules! reg_sut {
             type Op = u64;
             const NAME: &'static str = $name;
             const HAS_MERGE: bool = true;
+            fn validate_only(&self, op: &Self::Op, t: &mut Out) {
+                t.call(concat!($name, ".validate_op"), &[sx(self), op.to_string(), vm_sx(self.validate_op(op))]);
+            }
             fn new() -> Self {
                 $ty { val: $init }
             }
@@ -515,6 +550,11 @@ macro_rules! reg_sut {
                 t.call(concat!($name, ".read"), &[sx(self), self.read().to_string()]);
             }
             fn extra(&self, _o: &Self, _a: &mut Args, t: &mut Out) {
+                t.call(concat!($name, ".validate_merge"), &[sx(self), sx(_o), vm_sx(self.validate_merge(_o))]);
+                t.call(concat!($name, ".default"), &[sx(&<$ty<u64> as Default>::default())]);
+                let mut scratch = self.clone();
+                let fresh = scratch.new(self.val);
+                t.call(concat!($name, ".new"), &[self.val.to_string(), sx(&fresh)]);
                 serde_rt($name, self, t);
             }
             fn sx(&self) -> String {
@@ -589,6 +629,8 @@ impl Sut for LWWReg<u64, u64> {
     }
     fn reads(&self, _a: &mut Args, _t: &mut Out) {}
     fn extra(&self, _o: &Self, _a: &mut Args, t: &mut Out) {
+        t.call("lww.default", &[sx(&<LWWReg<u64, u64> as Default>::default())]);
+        t.call("lww.new", &[self.val.to_string(), self.marker.to_string(), sx(&LWWReg::new(self.val, self.marker))]);
         serde_rt("lww", self, t);
     }
     fn sx(&self) -> String {
@@ -797,6 +839,10 @@ impl Sut for MVReg<u64, A> {
     type Op = mvreg::Op<u64, A>;
     const NAME: &'static str = "mvreg";
     const HAS_MERGE: bool = true;
+    fn validate_only(&self, op: &Self::Op, t: &mut Out) {
+        // order-free type: validate_op accepts everything (C16)
+        t.call("mvreg.validate_op", &[sx(self), Self::op_sx(op), vm_sx(self.validate_op(op))]);
+    }
     fn new() -> Self {
         MVReg::new()
     }
@@ -833,6 +879,8 @@ impl Sut for MVReg<u64, A> {
         t.call("mvreg.read_ctx", &[sx(self), sx(&self.read_ctx())]);
     }
     fn extra(&self, o: &Self, a: &mut Args, t: &mut Out) {
+        // validate_merge accepts every pair of states (C17)
+        t.call("mvreg.validate_merge", &[sx(self), sx(o), vm_sx(self.validate_merge(o))]);
         let c1 = match a.below(3) {
             0 => self.read_ctx().add_clock,
             _ => rand_clock(a, false),
@@ -1166,6 +1214,10 @@ impl Sut for GList<u64> {
     type Op = glist::Op<u64>;
     const NAME: &'static str = "glist";
     const HAS_MERGE: bool = true;
+    fn validate_only(&self, op: &Self::Op, t: &mut Out) {
+        // order-free type: validate_op accepts everything (C16)
+        t.call("glist.validate_op", &[sx(self), Self::op_sx(op), vm_sx(self.validate_op(op))]);
+    }
     fn new() -> Self {
         GList::new()
     }
@@ -1260,6 +1312,9 @@ impl Sut for GList<u64> {
             let v = guard(|| *id.value());
             let iv = guard(|| id.clone().into_value());
             t.call("ident.value", &[sx(id), sx(&v)]);
+            let k = (ix % 5) as i64 - 2;
+            let made: Identifier<u64> = Identifier::from((num::BigRational::from_integer(k.into()), ix as u64));
+            t.call("ident.from", &[k.to_string(), ix.to_string(), sx(&made)]);
             t.call("ident.value", &[sx(id), sx(&iv)]);
         }
         let into = guard(|| self.clone().read_into::<Vec<u64>>());
@@ -1269,6 +1324,8 @@ impl Sut for GList<u64> {
         }]);
     }
     fn extra(&self, _o: &Self, a: &mut Args, t: &mut Out) {
+        // validate_merge accepts every pair of states (C17)
+        t.call("glist.validate_merge", &[sx(self), sx(_o), vm_sx(self.validate_merge(_o))]);
         ident_probes(a, t);
         serde_rt("glist", self, t);
     }
@@ -1479,6 +1536,9 @@ impl Sut for List<u64, A> {
         t.call("list.read_into", &[sx(self), sx(&owned)]);
     }
     fn extra(&self, _o: &Self, _a: &mut Args, t: &mut Out) {
+        // Op::id / Op::dot of an op built here (not applied)
+        let probe = self.append(7, 9);
+        t.call("list.op_id", &[sx(&probe), sx(probe.id()), sx(&probe.dot())]);
         serde_rt("list", self, t);
     }
     fn sx(&self) -> String {
@@ -1580,6 +1640,8 @@ impl Sut for MR {
         }
     }
     fn extra(&self, _o: &Self, _a: &mut Args, t: &mut Out) {
+        // validate_merge accepts every pair of states (C17)
+        t.call("merkle.validate_merge", &[sx(self), sx(_o), vm_sx(self.validate_merge(_o))]);
         serde_rt("merkle", self, t);
     }
     fn sx(&self) -> String {
